@@ -27,6 +27,14 @@ TABLES = ("TPM_RC_FMT0_ERROR_MAP", "TPM_RC_FMT1_MAP", "TPM_RC_FMT0_WARN_MAP")
 
 
 # ------------------------------------------------------------------------------ symbolic walk
+class UnboundOnPath(AnalysisError):
+    """a local is read on a path of the walk that never assigned it: the method raises UnboundLocalError for those codes"""
+
+    def __init__(self, name, node, msg):
+        super().__init__(msg)
+        self.name, self.node = name, node
+
+
 class Leaf:
     def __init__(self, conds, result, rows, node):
         self.conds, self.result, self.rows, self.node = conds, result, rows, node
@@ -72,6 +80,11 @@ class Walker:
             a = self.fold(node.operand, env)
             if a is not None:
                 return -a if isinstance(node.op, ast.USub) else ~a if isinstance(node.op, ast.Invert) else a
+        if isinstance(node, ast.Call) and isinstance(node.func, ast.Attribute) and node.func.attr == "bit_length" and not node.args \
+                and not node.keywords:
+            a = self.fold(node.func.value, env)
+            if a is not None:
+                return a.bit_length()
         return None
 
     def pred(self, node, env=None):
@@ -97,6 +110,21 @@ class Walker:
                 return ("lit", (a[1] == b[1]) == isinstance(node.ops[0], ast.Eq))
         if match(node, "self._value == 0") is not None or match(node, "0 == self._value") is not None:
             return ("zero",)
+        if isinstance(node, ast.Compare) and len(node.ops) == 1 and isinstance(node.ops[0], (ast.Is, ast.IsNot, ast.Eq, ast.NotEq)):
+            # a value that depends on the code only through conditions (a classification computed first) compared with a constant
+            try:
+                a, b = self.sym(node.left, env), self.sym(node.comparators[0], env)
+            except AnalysisError:
+                a = b = None
+            if a is not None and b is not None and b[0] == "const" and a[0] in ("ite", "const"):
+                def eq(x):
+                    if x[0] == "const":
+                        return ("lit", x[1] == b[1] and type(x[1]) is type(b[1]))
+                    if x[0] == "ite":
+                        return ("or", ("and", x[1], eq(x[2])), ("and", ("not", x[1]), eq(x[3])))
+                    raise AnalysisError(f"N1: unrecognised condition `{norm(node)}` at {self.mod.relpath}:{node.lineno}")
+                p = simplify(eq(a))
+                return p if isinstance(node.ops[0], (ast.Is, ast.Eq)) else simplify(("not", p))
         if isinstance(node, ast.Compare) and len(node.ops) == 1 and isinstance(node.ops[0], (ast.Is, ast.IsNot)) \
                 and isinstance(node.left, ast.Name) and node.left.id in env and isinstance(node.comparators[0], ast.Constant) \
                 and node.comparators[0].value is None:
@@ -112,6 +140,16 @@ class Walker:
             if M is None:
                 raise AnalysisError(f"N1: cannot fold mask {norm(node.args[0])} at {self.mod.relpath}:{node.lineno}")
             return (self.helpers[node.func.attr], M)
+        if isinstance(node, (ast.BinOp, ast.Name, ast.Attribute)):
+            # truthiness of an expression over the code: a constant, or a masked part of it (non-zero iff a bit of the mask is set)
+            try:
+                v = self.sym(node, env)
+            except AnalysisError:
+                v = None
+            if v is not None and v[0] == "const":
+                return ("lit", bool(v[1]))
+            if v is not None and v[0] == "and" and v[1] == ("v",) and isinstance(v[2], int):
+                return ("not", ("unset", v[2]))
         raise AnalysisError(f"N1: unrecognised condition `{norm(node)}` at {self.mod.relpath}:{node.lineno}")
 
     def sym(self, node, env):
@@ -125,23 +163,28 @@ class Walker:
                 return ("const", v)
             if node.id in TABLES:
                 return ("table", node.id)
-            raise AnalysisError(f"N1: unbound local {node.id} at {self.mod.relpath}:{node.lineno} "
+            raise UnboundOnPath(node.id, node, f"N1: unbound local {node.id} at {self.mod.relpath}:{node.lineno} "
                                 f"(used on a path where it is not assigned)")
         if match(node, "self._value") is not None:
             return ("v",)
         if match(node, "type(self).__name__") is not None:
             return ("T",)
         if isinstance(node, ast.BinOp) and isinstance(node.op, (ast.BitAnd, ast.RShift)):
-            a = self.sym(node.left, env)
             b = self.fold(node.right, env)
-            if b is None:
-                raise AnalysisError(f"N1: cannot fold {norm(node.right)}")
-            return ("and" if isinstance(node.op, ast.BitAnd) else "shr", a, b)
+            if b is not None:
+                return ("and" if isinstance(node.op, ast.BitAnd) else "shr", self.sym(node.left, env), b)
         if isinstance(node, ast.BinOp) and isinstance(node.op, ast.FloorDiv):
             # division by a power of two is a right shift (the "lowest set bit of the mask" idiom: x // (M & -M))
             b = self.fold(node.right, env)
             if isinstance(b, int) and b > 0 and b & (b - 1) == 0:
                 return ("shr", self.sym(node.left, env), b.bit_length() - 1)
+        if isinstance(node, ast.BinOp) and type(node.op).__name__ in _ARITH:
+            # arithmetic on parts of the code that no special form above covers: kept as is and computed per enumerated code
+            # (`resolve`), which is exact as long as only the enumerated low 12 bits of the code enter it
+            return ("op", type(node.op).__name__, self.sym(node.left, env), self.sym(node.right, env))
+        if isinstance(node, ast.UnaryOp) and isinstance(node.op, (ast.USub, ast.Invert)):
+            c = self.fold(node, env)
+            return ("const", c) if c is not None else ("uop", type(node.op).__name__, self.sym(node.operand, env))
         if isinstance(node, ast.JoinedStr):
             parts = []
             for p in node.values:
@@ -193,9 +236,17 @@ class Walker:
         if isinstance(node, ast.Call) and isinstance(node.func, ast.Name) and node.func.id == "TPM_RC":
             mask = self.fold(node.args[0], env) if node.args else None
             kw = {k.arg: self.sym(k.value, env) for k in node.keywords}
+            if mask is None and node.args:
+                mask = self.sym(node.args[0], env)   # a mask chosen by the code's layout: resolved per enumerated code
             if mask is None:
                 raise AnalysisError(f"N1: cannot fold row mask {norm(node)}")
             return ("bit", mask, kw.get("name"), kw.get("details"))
+        if isinstance(node, ast.Attribute) and isinstance(node.value, ast.Name) and node.value.id in getattr(self, "enums", ()) \
+                and node.value.id not in env:
+            return ("const", f"{node.value.id}.{node.attr}")   # a member of a module-level Enum: a constant, compared by identity
+        if isinstance(node, ast.Call) and isinstance(node.func, ast.Name) and node.func.id == "sorted" and "sorted" not in env \
+                and len(node.args) == 1 and isinstance(node.args[0], ast.Name) and env.get(node.args[0].id) == ("rows",):
+            return ("rows",)   # (order only, checked separately)
         if isinstance(node, ast.Call) and isinstance(node.func, ast.Name) and node.func.id in env \
                 and env[node.func.id] == ("sortfn",) and len(node.args) == 1:
             return self.sym(node.args[0], env)
@@ -271,6 +322,14 @@ class Walker:
             env[e.id] = comp(v, i)
 
     def walk(self, stmts, env, conds, rows):
+        try:
+            return self.walk_(stmts, env, conds, rows)
+        except UnboundOnPath as u:
+            lf = Leaf(conds, ("const", f"<UnboundLocalError: {u.name}>"), [], u.node)
+            lf.failure = u.name
+            self.leaves.append(lf)
+
+    def walk_(self, stmts, env, conds, rows):
         for i, st in enumerate(stmts):
             rest = stmts[i + 1:]
             if isinstance(st.value if isinstance(st, (ast.Assign, ast.Return)) else None, ast.IfExp) and (
@@ -312,8 +371,16 @@ class Walker:
                 if isinstance(t, ast.Tuple) and all(isinstance(e, ast.Name) for e in t.elts):
                     self.bind_tuple(t, self.sym(st.value, env), env, st)
                     continue
+            if isinstance(st, ast.AugAssign) and isinstance(st.op, ast.Add) and isinstance(st.target, ast.Name) \
+                    and env.get(st.target.id) == ("rows",) and isinstance(st.value, (ast.List, ast.Tuple)):
+                rows.extend(self.sym(x, env) for x in st.value.elts)
+                continue
             if isinstance(st, ast.Expr):
                 if isinstance(st.value, ast.Constant):
+                    continue
+                m = match(st.value, "M_l.extend(M_x)")
+                if m is not None and isinstance(m["M_l"], ast.Name) and env.get(m["M_l"].id) == ("rows",) and isinstance(m["M_x"], (ast.List, ast.Tuple)):
+                    rows.extend(self.sym(x, env) for x in m["M_x"].elts)
                     continue
                 m = match(st.value, "M_l.append(M_x)")
                 if m is not None and isinstance(m["M_l"], ast.Name) and env.get(m["M_l"].id) == ("rows",):
@@ -329,6 +396,23 @@ class Walker:
                 continue
             raise AnalysisError(f"N1: unmodelled statement `{norm(st).splitlines()[0]}` at {self.mod.relpath}:{st.lineno}")
         self.leaves.append(Leaf(conds, None, rows, stmts[-1] if stmts else self.fn))
+
+
+def simplify(p):
+    """constant folding of a condition formula"""
+    if p[0] == "not":
+        q = simplify(p[1])
+        return ("lit", not q[1]) if q[0] == "lit" else ("not", q)
+    if p[0] in ("and", "or"):
+        qs = [simplify(q) for q in p[1:]]
+        unit = p[0] == "and"
+        if any(q == ("lit", not unit) for q in qs):
+            return ("lit", not unit)
+        qs = [q for q in qs if q != ("lit", unit)]
+        if not qs:
+            return ("lit", unit)
+        return qs[0] if len(qs) == 1 else (p[0],) + tuple(qs)
+    return p
 
 
 def holds(p, v):
@@ -389,11 +473,11 @@ def reference_format(v):
     if v & 0x80:  # format one
         name = "TPM_RC_FMT1_MAP[(v&0x3f)].name"
         if v & 0x40:
-            det = "Parameter No. {((v&0xf00)>>8)}"
+            det = "Parameter No. {" + hex((v & 0xf00) >> 8) + "}"
         elif v & 0x800:
-            det = "Session No. {((v&0x700)>>8)}"
+            det = "Session No. {" + hex((v & 0x700) >> 8) + "}"
         else:
-            det = "Handle No. {((v&0x700)>>8)}"
+            det = "Handle No. {" + hex((v & 0x700) >> 8) + "}"
         return "{T}.{" + name + "} (" + det + ")"
     if v & 0x400:
         return "{T}.UNKNOWN (Vendor-defined)"
@@ -402,19 +486,73 @@ def reference_format(v):
     return "{T}.{TPM_RC_FMT0_ERROR_MAP[(v&0x7f)].name}"
 
 
+_ARITH = {"BitAnd": lambda a, b: a & b, "BitOr": lambda a, b: a | b, "BitXor": lambda a, b: a ^ b, "RShift": lambda a, b: a >> b,
+          "LShift": lambda a, b: a << b, "FloorDiv": lambda a, b: a // b, "Mod": lambda a, b: a % b, "Add": lambda a, b: a + b,
+          "Sub": lambda a, b: a - b, "Mult": lambda a, b: a * b}
+
+
+def concrete(s, v):
+    """the integer a number expression has for the code v (only its enumerated low 12 bits may enter), else None"""
+    if not isinstance(s, tuple) or not s:
+        return None
+    if s[0] == "const":
+        return s[1] if isinstance(s[1], int) and not isinstance(s[1], bool) else None
+    if s[0] == "and" and isinstance(s[2], int):
+        if s[1] == ("v",):
+            if s[2] & ~0xFFF:
+                raise AnalysisError(f"N1: arithmetic on bits of the code beyond the enumerated low 12 (mask {s[2]:#x})")
+            return v & s[2]
+        a = concrete(s[1], v)
+        return None if a is None else a & s[2]
+    if s[0] == "shr" and isinstance(s[2], int):
+        a = concrete(s[1], v)
+        return None if a is None else a >> s[2]
+    if s[0] == "ite":
+        return concrete(s[2] if holds(s[1], v) else s[3], v)
+    if s[0] == "op":
+        a, b = concrete(s[2], v), concrete(s[3], v)
+        if a is None or b is None:
+            return None
+        if s[1] in ("LShift", "RShift") and not 0 <= b <= 64:
+            raise AnalysisError("N1: shift amount out of range")
+        return _ARITH[s[1]](a, b)
+    if s[0] == "uop":
+        a = concrete(s[2], v)
+        return None if a is None else (-a if s[1] == "USub" else ~a)
+    return None
+
+
 def resolve(s, v):
     """the symbolic value for the concrete code v: conditional values take the arm v selects"""
     if isinstance(s, tuple):
         if s and s[0] == "ite":
             return resolve(s[2] if holds(s[1], v) else s[3], v)
+        if s and s[0] in ("op", "uop"):
+            try:
+                c = concrete(s, v)
+            except ZeroDivisionError:
+                return ("const", "<ZeroDivisionError>")
+            if c is None:
+                raise AnalysisError(f"N1: number expression {s!r} is outside the modelled arithmetic")
+            return ("const", c)
         if s and s[0] in ("set", "unset", "zero", "lit", "not", "and_", "or"):
             return s
+        if len(s) == 3 and s[0] == "shr" and isinstance(s[1], tuple) and s[1][:2] == ("and", ("v",)) and isinstance(s[1][2], int) \
+                and not s[1][2] & ~0xFFF and isinstance(s[2], int):
+            return ("const", (v & s[1][2]) >> s[2])   # a number field inside the enumerated low 12 bits: its value for this code
         return tuple(resolve(x, v) if isinstance(x, tuple) else x for x in s)
     return s
 
 
 def resolve_row(r, v):
     """a bit row with its name / details resolved for v (the mask stays)"""
+    if isinstance(r, tuple) and r and r[0] == "ite":
+        return resolve_row(r[2] if holds(r[1], v) else r[3], v)
+    if isinstance(r, tuple) and r and r[0] == "bit" and not isinstance(r[1], int):
+        m = concrete(resolve(r[1], v), v)
+        if m is None:
+            raise AnalysisError(f"N1: row mask {r[1]!r} is not a number for code {v:#x}")
+        r = ("bit", m) + tuple(r[2:])
     if isinstance(r, tuple) and r and r[0] == "bit":
         return ("bit", r[1], resolve(r[2], v) if isinstance(r[2], tuple) else r[2], resolve(r[3], v) if isinstance(r[3], tuple) else r[3])
     return r
@@ -435,6 +573,36 @@ def flatten(s):
 
 def in_domain(v):
     return v == 0 or bool(v & 0x180)
+
+
+def path_failures(project):
+    """[(method name, local name, node, example codes)]: paths of TPM_RC.__format__ / attributes() on which a local is read
+    without having been assigned (UnboundLocalError for the codes of that path) - for the printers' termination rule C14-Q6"""
+    mod = project.module(MOD)
+    env = ctx.model(project).env(MOD)
+    consts = {k: v for k, v in env.items() if isinstance(v, int) and not isinstance(v, bool)}
+    cls = mod.classes().get("TPM_RC")
+    if cls is None:
+        raise AnalysisError("N1: class TPM_RC not found")
+    fns = {n.name: n for n in cls.body if isinstance(n, ast.FunctionDef)}
+    helpers = {n: k for n, k in (("are_bits_set", "set"), ("are_bits_unset", "unset")) if n in fns}
+    methods = {k: f for k, f in fns.items() if k not in helpers and k not in ("__format__", "attributes", "__str__", "__init__")
+               and not any(isinstance(d, ast.Name) and d.id in ("property", "staticmethod", "classmethod") for d in f.decorator_list)}
+    enums = {c.name for c in mod.tree.body if isinstance(c, ast.ClassDef) and any(norm(b) in ("Enum", "enum.Enum", "IntEnum", "enum.IntEnum")
+                                                                                   for b in c.bases)}
+    out = []
+    for name in ("__format__", "attributes"):
+        if name not in fns:
+            continue
+        w = Walker(consts, mod, fns[name], helpers)
+        w.methods, w.enums = methods, enums
+        w.walk(fns[name].body, {}, [], [])
+        for lf in w.leaves:
+            if getattr(lf, "failure", None):
+                codes = [v for v in range(4096) if in_domain(v) and all(holds(p, v) == t for p, t in lf.conds)]
+                if codes:
+                    out.append((name, lf.failure, lf.node, codes))
+    return mod, out
 
 
 # ------------------------------------------------------------------------------ the check
@@ -475,11 +643,15 @@ def check(run, project):
 
     methods = {k: f for k, f in fns.items() if k not in helpers and k not in ("__format__", "attributes", "__str__", "__init__")
                and not any(isinstance(d, ast.Name) and d.id in ("property", "staticmethod", "classmethod") for d in f.decorator_list)}
+    enums = {c.name for c in mod.tree.body if isinstance(c, ast.ClassDef) and any(norm(b) in ("Enum", "enum.Enum", "IntEnum", "enum.IntEnum")
+                                                                                   for b in c.bases)}
     wf = Walker(consts, mod, fns["__format__"], helpers)
     wf.methods = methods
+    wf.enums = enums
     wf.walk(fns["__format__"].body, {}, [], [])
     wa = Walker(consts, mod, fns["attributes"], helpers)
     wa.methods = methods
+    wa.enums = enums
     wa.walk(fns["attributes"].body, {}, [], [])
     # masks tested by conditions live in the low 12 bits (so the low-12 enumeration is exhaustive)
     for w in (wf, wa):
@@ -501,7 +673,12 @@ def check(run, project):
         if got != want:
             bad_fmt.setdefault((id(lf), got, want), [lf, []])[1].append(v)
         la = leaf_for(wa.leaves, v)
-        rows = la.rows if la.result is not None and la.result != ("list",) else []
+        if getattr(la, "failure", None):
+            n_rows += 1
+            bad_part.setdefault((id(la), f"attributes() raises UnboundLocalError: the local `{la.failure}` is read on this path without "
+                                 "having been assigned"), [la, []])[1].append(v)
+            continue
+        rows = [resolve_row(r, v) for r in la.rows] if la.result is not None and la.result != ("list",) else []
         if la.result == ("list",) or (v == 0):
             rows = [] if la.result == ("list",) else rows
         masks = [r[1] for r in rows if r[0] == "bit"]
@@ -533,7 +710,7 @@ def check(run, project):
         sev = [r for r in rows if r[0] == "bit" and r[2] == ("const", "severity")]
         if not (v & 0x80) and sev:
             d = sev[0][3]
-            want_sev = ("ite", ("set", 0x800), ("const", "Warning"), ("const", "Error"))
+            want_sev = ("const", "Warning" if v & 0x800 else "Error")   # (rows are resolved for the code v by now)
             if d != want_sev or sev[0][1] != 0x800:
                 bad_agree.setdefault((id(la), f"severity row is {render(sev[0])}"), [la, []])[1].append(v)
 
@@ -555,14 +732,21 @@ def check(run, project):
     run.rule_counts["N1"] = run.rule_counts.get("N1", 0) + n_fmt + 2 * n_rows
     run.cover(codes_enumerated=len(domain), evaluations=n_fmt + 2 * n_rows)
     # rows are returned sorted by mask, descending (printer order = bit order)
-    srt = [n for n in ast.walk(fns["attributes"]) if isinstance(n, ast.FunctionDef)]
-    if srt:
-        m = [c for c in ast.walk(srt[0]) if isinstance(c, ast.Call) and isinstance(c.func, ast.Name) and c.func.id == "sorted"]
-        ok = len(m) == 1 and any(k.arg == "reverse" and isinstance(k.value, ast.Constant) and k.value.value is True
-                                 for k in m[0].keywords) and any(
-            k.arg == "key" and norm(k.value).replace(" ", "") in ("lambdab:b._value",) for k in m[0].keywords)
+    def is_sorted_call(c):
+        return isinstance(c, ast.Call) and isinstance(c.func, ast.Name) and c.func.id == "sorted" and any(
+            k.arg == "reverse" and isinstance(k.value, ast.Constant) and k.value.value is True for k in c.keywords) and any(
+            k.arg == "key" and norm(k.value).replace(" ", "") in ("lambdab:b._value",) for k in c.keywords)
+    att = fns["attributes"]
+    sorters = {n.name for n in ast.walk(att) if isinstance(n, ast.FunctionDef) and n is not att
+               and [r for r in ast.walk(n) if isinstance(r, ast.Return)] and all(is_sorted_call(r.value) for r in ast.walk(n) if isinstance(r, ast.Return))}
+    from ..project import walk_no_nested
+    for r in [r for r in walk_no_nested(att) if isinstance(r, ast.Return) and r.value is not None]:
+        if isinstance(r.value, (ast.List, ast.Tuple)) and not r.value.elts:
+            continue
+        ok = is_sorted_call(r.value) or (isinstance(r.value, ast.Call) and isinstance(r.value.func, ast.Name) and r.value.func.id in sorters)
         run.ob("N1", ok, "rows sorted from the most significant field down",
-               "attributes() no longer sorts rows by mask, descending", module=mod, node=srt[0], func="TPM_RC.attributes")
+               f"attributes() returns `{norm(r.value)[:60]}`: the rows are no longer sorted by mask, descending", module=mod, node=r,
+               func="TPM_RC.attributes")
     n2(run, mod, M)
     run.floor("N1", 3000, "code evaluations")
     run.floor("N2", 100, "table entries")
